@@ -825,8 +825,8 @@ class WorkflowConductor(object):
         task_state_entry = {
             "id": task_id,
             "route": route,
-            "ctxs": {"in": in_ctx_idxs},
-            "prev": prev or {},
+            "ctxs": {"in": json_util.deepcopy(in_ctx_idxs)},
+            "prev": json_util.deepcopy(prev or {}),
             "next": {},
         }
 
@@ -927,9 +927,9 @@ class WorkflowConductor(object):
             self.workflow_state.add_staged_task(
                 task_id,
                 route,
-                ctxs=task_state_entry["ctxs"]["in"],
-                prev=task_state_entry["prev"],
-                retry=task_state_entry["retry"],
+                ctxs=json_util.deepcopy(task_state_entry["ctxs"]["in"]),
+                prev=json_util.deepcopy(task_state_entry["prev"]),
+                retry=json_util.deepcopy(task_state_entry["retry"]),
                 ready=True,
             )
 
